@@ -45,6 +45,8 @@ func checkC02(ctx *Ctx, r *Report) {
 	c02PythonEscapeLast(ctx, r)
 	c08ResolvesToConstraints(ctx, r)
 	c02GoQualifiedIdentifiers(ctx, r)
+	c09UnfoldAccumulators(ctx, r)
+	c09TypedConstantSetup(ctx, r)
 }
 
 // kindConsts: the constants of ast.Kind / ast.ScalarKind.
